@@ -38,6 +38,11 @@ static int fz_qq_fail; static unsigned long long fz_qq_bytes; static long fz_qq_
 static void fz_exit(int c) __attribute__((noreturn));
 static void fz_exit(int c) { fz_exitcode = c & 255; longjmp(fz_jb, 1); }
 
+/* Growth buffers get slack (n/8 + 30) when they grow and keep their size for the life of a process: in a
+   process that lives for 10^5 inputs every small overrun would land in slack left by an earlier, larger input.
+   Each run therefore starts with unallocated buffers, as a fresh process does (first allocation = exact size). */
+#define FZ_FRESH(sa) do { if ((sa).s) free((sa).s); (sa).s = 0; (sa).len = 0; (sa).a = 0; } while (0)
+
 /* ---- scripted input -------------------------------------------------------------- */
 static const unsigned char *fz_in; static size_t fz_inlen, fz_inoff;
 static unsigned fz_chunk;         /* 0 = as much as asked for, else at most that many bytes per read */
